@@ -178,6 +178,10 @@ def c16_case(tdir, d, k, b):
     if cfg["zooms"]:
         a1.append("-zooms=2,8" if ucsc else "--zooms=2,8")
     tr1, tr2 = os.path.join(d, "tr1_%s.txt" % tag), os.path.join(d, "tr2_%s.txt" % tag)
+    # every output path already holds a LONGER file from "an earlier run": the tools must replace it, not write over its beginning
+    for stale in (big, back):
+        with open(stale, "wb") as f:
+            f.write((b"chrAa\t1\t2\tstale 9.75\n" * 40000) if stale == back else os.urandom(900000))
     rc1, _, err1 = run_tool(tdir, cfg["invoke"], "bedgraphtobigwig" if kind == "bw" else "bedtobigbed", a1, stdin=stdin_data, trace=tr1)
     a2 = [big, back, "-t", str(cfg["bthreads"])]
     if cfg["binmem"]:
@@ -340,6 +344,9 @@ def c17_case(tdir, d, k, b):
         args += ["-n", nm]
     if b["minmax"]:
         args.append("--min-max")
+    for stale in (out, out + ".t1", out + ".v", out + ".vn"):       # longer files from "an earlier run" are already there
+        with open(stale, "wb") as f:
+            f.write(b"stale\t1\t1\t1.000\t1.000\t1.000\n" * 5000)
     rc, _, err = run_tool(tdir, "own", "bigwigaverageoverbed", args)
     raw = open(out, "rb").read() if os.path.exists(out) else b""
     rows, parsed = [], 1
@@ -538,6 +545,8 @@ def merge_case(tdir, d, k, b):
         args = opts + ["-inList", listfile, out]
     # every fortieth merge (those that write a bigWig): all hook events, for trace validation of the write pipeline fed by the merge tool's
     # own data source (ChromGroupRead)
+    with open(out, "wb") as f:            # a longer file from "an earlier run" is already there
+        f.write(b"chrAa\t0\t1\t9\n" * 20000)
     trf = os.path.join(d, "trm_%s.txt" % tag) if (k % 40 == 0 and outkind in ("bw", "bigWig", "type-bigwig")) else None
     rc, _, err = run_tool(tdir, "mixedcase" if ucsc else "own", "bigwigmerge", args, trace=trf)
     events = None
